@@ -23,7 +23,7 @@ From Coq Require Import List NArith ZArith Bool String Lia.
 From GmsmVerif Require Import Lib.Outcome Gen.X509Tables X509.CreateModel X509.CreateRun X509.SigAlgTables X509.CreateProofs.
 From GmsmVerif Require Import SM2.SM2Bytes SM2.SM2Spec SM2.DER SM2.SM2Model SM2.SM2SignProofs X509.CreateSM2Model X509.CreateSM2Proofs.
 From GmsmVerif Require EC.SM2Curve.
-From GmsmVerif Require Import X509.DerLayer X509.DerLayerProofs X509.ExtModel X509.ExtProofs X509.CrlModel X509.CrlProofs.
+From GmsmVerif Require Import X509.DerLayer X509.DerLayerProofs X509.ExtModel X509.ExtProofs X509.CrlModel X509.CrlProofs X509.CertModel X509.CertProofs X509.CertRun.
 Import ListNotations.
 Local Open Scope N_scope.
 
@@ -339,6 +339,131 @@ Proof.
   split; [exact (crl_number_roundtrip_lemma number H2)|reflexivity].
 Qed.
 Print Assumptions crl_number_and_aki_roundtrip.
+
+(* ---------- 4b. the objects themselves: TBSCertificate, SubjectPublicKeyInfo, CertificationRequestInfo --------
+   X509/CertModel.v: what CreateCertificate / CreateCertificateRequest assemble and what parseCertificate /
+   parseCertificateRequest read back.  Names and the signature AlgorithmIdentifier are opaque SEQUENCE
+   elements (crypto/x509/pkix is the standard library's), times go through a codec that round-trips
+   (time.Time's, by contract), the public key is an SM2 key (what CreateCertificate accepts). *)
+
+Theorem C09_keyusage_value_roundtrip :
+  forall ku, 0 < ku < 512 -> parse_keyusage_value (build_keyusage_value ku) = Ok ku.
+Proof. exact keyusage_value_roundtrip_lemma. Qed.
+Print Assumptions C09_keyusage_value_roundtrip.
+
+Theorem C09_basic_constraints_value_roundtrip :
+  forall isCA maxPathLen maxPathLenZero,
+    small (build_bc_value isCA maxPathLen maxPathLenZero) ->
+    parse_bc_value (build_bc_value isCA maxPathLen maxPathLenZero) =
+      Ok (decode_basic_constraints (encode_basic_constraints isCA maxPathLen maxPathLenZero)).
+Proof. exact bc_value_roundtrip_lemma. Qed.
+Print Assumptions C09_basic_constraints_value_roundtrip.
+
+(* the SubjectPublicKeyInfo of every SM2 public key (a point of the curve with coordinates below p): OIDs
+   from the generated tables, uncompressed point, read back by the ECDSA arm of parsePublicKey *)
+Theorem C09_spki_sm2_roundtrip :
+  forall x y, (0 <= x < EC.SM2Curve.sm2_p)%Z -> (0 <= y < EC.SM2Curve.sm2_p)%Z -> EC.SM2Curve.sm2_on_curve x y = true ->
+    parse_spki_sm2 (spki_content_sm2 x y) = Ok (x, y).
+Proof. exact spki_roundtrip_lemma. Qed.
+Print Assumptions C09_spki_sm2_roundtrip.
+
+(* the TBSCertificate frame: [0] version 2, serial, algorithm, issuer, validity, subject, SPKI, [3] extensions *)
+Theorem C09_tbs_certificate_roundtrip :
+  forall (T : Type) (enc_time : T -> N * list N) (dec_time : N * list N -> option T),
+    (forall t, dec_time (enc_time t) = Some t) -> (forall t, is_time_id (fst (enc_time t)) = true) ->
+    forall t, tbs_cert_ok T t -> small (build_tbs_cert T enc_time t) ->
+      parse_tbs_cert T dec_time (build_tbs_cert T enc_time t) = Ok t.
+Proof. exact tbs_cert_roundtrip_lemma. Qed.
+Print Assumptions C09_tbs_certificate_roundtrip.
+
+(* buildExtensions followed by the extension loop of parseCertificate, for the fields the property names:
+   key usage, extended key usage, basic constraints, key identifiers, SANs, policies, name constraints *)
+Theorem C09_extension_list_roundtrip :
+  forall f exts,
+    fields_ok f -> buildExtensions_model f = Ok exts -> (forall e, In e exts -> small (x_val e)) ->
+    parse_extensions empty_fields exts = Ok (expected_fields f).
+Proof. exact extensions_roundtrip_lemma. Qed.
+Print Assumptions C09_extension_list_roundtrip.
+
+(* the whole certificate body: serial, validity, names, SM2 public key and the template's extension fields
+   come back from the bytes CreateCertificate signs *)
+Theorem C09_certificate_roundtrip :
+  forall (T : Type) (enc_time : T -> N * list N) (dec_time : N * list N -> option T),
+    (forall t, dec_time (enc_time t) = Some t) -> (forall t, is_time_id (fst (enc_time t)) = true) ->
+    forall serial alg issuer notBefore notAfter subject x y f exts,
+      fst alg = ID_SEQUENCE -> fst issuer = ID_SEQUENCE -> fst subject = ID_SEQUENCE ->
+      (0 <= x < EC.SM2Curve.sm2_p)%Z -> (0 <= y < EC.SM2Curve.sm2_p)%Z -> EC.SM2Curve.sm2_on_curve x y = true ->
+      fields_ok f -> buildExtensions_model f = Ok exts ->
+      let t := mkTbsCert serial alg issuer notBefore notAfter subject (spki_content_sm2 x y) exts in
+      small (build_tbs_cert T enc_time t) ->
+      exists t', parse_tbs_cert T dec_time (build_tbs_cert T enc_time t) = Ok t' /\
+                 tc_serial t' = serial /\ tc_notbefore t' = notBefore /\ tc_notafter t' = notAfter /\
+                 tc_issuer t' = issuer /\ tc_subject t' = subject /\
+                 parse_spki_sm2 (tc_spki t') = Ok (x, y) /\
+                 parse_extensions empty_fields (tc_exts t') = Ok (expected_fields f).
+Proof.
+  intros T enc_time dec_time Hrt Hid serial alg issuer nb na subject x y f exts Ha Hi Hsu Hx Hy Hon Hf Hb t Hs.
+  pose proof (buildExtensions_ext_ok f exts Hb) as Hok.
+  assert (Hrt' : parse_tbs_cert T dec_time (build_tbs_cert T enc_time t) = Ok t).
+  { apply tbs_cert_roundtrip_lemma; try assumption. unfold tbs_cert_ok, t. cbn. tauto. }
+  exists t. split; [exact Hrt'|]. unfold t. cbn [tc_serial tc_notbefore tc_notafter tc_issuer tc_subject tc_spki tc_exts].
+  repeat (split; [reflexivity|]). split; [apply spki_roundtrip_lemma; assumption|].
+  apply extensions_roundtrip_lemma; [exact Hf|exact Hb|].
+  intros e He. apply enc_ext_value_small.
+  (* the value sits inside the [3] wrapper of the TBSCertificate *)
+  unfold build_tbs_cert, t in Hs. cbn [tc_serial tc_alg tc_issuer tc_notbefore tc_notafter tc_subject tc_spki tc_exts] in Hs.
+  pose proof (small_tlv _ _ Hs) as Hw.
+  assert (Hx3 : small (tlv ID_SEQUENCE (write_all (map enc_ext exts)))).
+  { apply (small_write_all _ Hw (ID_CTX3_CONS, tlv ID_SEQUENCE (write_all (map enc_ext exts)))). do 7 right. left. reflexivity. }
+  apply (small_write_all _ (small_tlv _ _ Hx3) (enc_ext e)). apply in_map. exact He.
+Qed.
+Print Assumptions C09_certificate_roundtrip.
+
+(* the CertificationRequestInfo frame: version 0, subject, SPKI, [0] attributes (opaque elements) *)
+Theorem C09_csr_info_roundtrip :
+  forall c : csr_info,
+    fst (cr_subject c) = ID_SEQUENCE -> (forall a, In a (cr_attributes c) -> low_tag (fst a)) ->
+    small (build_csr_info c) -> parse_csr_info (build_csr_info c) = Ok c.
+Proof. exact csr_info_roundtrip_lemma. Qed.
+Print Assumptions C09_csr_info_roundtrip.
+
+(* the instance the correspondence runner evaluates (OIDs looked up at compile time) is the model *)
+Theorem runner_cert_model_is_the_model :
+  (forall x y, spki_content_run x y = spki_content_sm2 x y) /\
+  (forall f, buildExtensions_run f = buildExtensions_model f).
+Proof. exact cert_run_is_the_model. Qed.
+Print Assumptions runner_cert_model_is_the_model.
+
+(* non-vacuity of the round trips: concrete instances of their premises, evaluated.  Times are the DER
+   elements themselves (UTCTime "240101000000Z" ...), the key is the base point G. *)
+Definition ex_time1 : N * list N := (ID_UTCTIME, [50;52;48;49;48;49;48;48;48;48;48;48;90]).
+Definition ex_time2 : N * list N := (ID_GENERALIZEDTIME, [50;48;53;48;48;49;48;49;48;48;48;48;48;48;90]).
+Definition ex_name : N * list N := (ID_SEQUENCE, [49;10;48;8;6;3;85;4;3;12;1;99]).
+Definition ex_alg : N * list N := (ID_SEQUENCE, [6;8;42;129;28;207;85;1;131;117]).
+Definition ex_fields : cert_fields :=
+  mkFields 96 [c_ExtKeyUsageServerAuth] [[1;2;3;4]] true true 0%Z true [1;2;3] [9;9] [[97;46;98]] [] [[10;1;2;3]]
+           [[2;5;29;32;0]] [[97;46;98]] true.
+
+Example roundtrip_premises_examples :
+  (* san_roundtrip *)
+  Forall ip_len_ok [[10;1;2;3]; [0;0;0;0;0;0;0;0;0;0;255;255;10;1;2;4]]
+  /\ parseSANExtension_model (marshalSANs_model [[97;46;98]] [[120;64;121]] [[10;1;2;3]; [0;0;0;0;0;0;0;0;0;0;255;255;10;1;2;4]])
+     = Ok ([[97;46;98]], [[120;64;121]], [[10;1;2;3]; [10;1;2;4]])
+  (* crl_tbs_roundtrip, with the identity time codec *)
+  /\ (let t := mkTbs ex_alg ex_name ex_time1 (Some ex_time2)
+                     [mkEntry (-129)%Z ex_time1 [mkExt [2;5;29;21] false [10;1;1]]; mkEntry (2 ^ 159)%Z ex_time2 []]
+                     (revocation_list_exts [7;7] 5%Z []) in
+      parse_tbs_raw (build_tbs_raw false t) = Ok t)
+  (* C09_certificate_roundtrip: G is on the curve, the fields are accepted, the body parses back *)
+  /\ EC.SM2Curve.sm2_on_curve EC.SM2Curve.sm2_Gx EC.SM2Curve.sm2_Gy = true
+  /\ (exists exts, buildExtensions_model ex_fields = Ok exts /\ List.length exts = 8%nat /\
+        parse_extensions empty_fields exts = Ok (expected_fields ex_fields))
+  /\ parse_spki_sm2 (spki_content_sm2 EC.SM2Curve.sm2_Gx EC.SM2Curve.sm2_Gy) = Ok (EC.SM2Curve.sm2_Gx, EC.SM2Curve.sm2_Gy).
+Proof.
+  split; [repeat constructor; (left; reflexivity) || (right; reflexivity)|].
+  split; [vm_compute; reflexivity|]. split; [vm_compute; reflexivity|]. split; [vm_compute; reflexivity|].
+  split; [eexists; split; [vm_compute; reflexivity|split; vm_compute; reflexivity]|vm_compute; reflexivity].
+Qed.
 
 Example extension_examples :
   marshalSANs_model [[97; 46; 98]] [] [[0;0;0;0;0;0;0;0;0;0;255;255;10;1;2;3]] = [48; 11; 130; 3; 97; 46; 98; 135; 4; 10; 1; 2; 3]
